@@ -237,6 +237,16 @@ example : paAllocate 3 0 Pool.empty = .error .alloc ∧ paAllocate 3 2 Pool.empt
     paAllocate 3 (2 ^ 64 - 1) Pool.empty = .error .alloc ∧
     paAllocate 3 1 Pool.empty = .ok ((0, 0), ⟨[0], [(0, 1), (0, 2)], [(0, 0)]⟩) := ⟨rfl, rfl, rfl, rfl⟩
 
+/-- `max_size()` tells the truth: the accepted counts are exactly `1 ≤ n ≤ max_size()` -/
+theorem pa_accepts_iff_max_size (n : Nat) : paAccepts n = true ↔ (1 ≤ n ∧ n ≤ paMaxSize) := by
+  unfold paAccepts paMaxSize
+  simp only [decide_eq_true_eq]
+  omega
+
+/-- `deallocate(p, 1)` is the pool's `free`, `deallocate(p, 0)` does nothing -/
+theorem pa_deallocate (g : Geo) (p : Pool) (q : Ptr) :
+    paDeallocate g p q 1 = some (free g p q) ∧ paDeallocate g p q 0 = some (.ok p) := ⟨rfl, rfl⟩
+
 /-- the pool of `PoolAllocator<T,s>` is `Pool<T, s*sizeof(T)>` -/
 theorem pa_pool_size (sz s : Nat) : paPoolSize sz s = s * sz := rfl
 
